@@ -97,10 +97,10 @@ Definition fresh_packet (c : cfg) (pn : Z) : option Builder.st :=
 Definition frames_per_room (rm : Z) : Z := rm / W_new_connection_id_frame_0_cap.
 
 (* ---------- executable interface (tie) --------------------------------------------------------------------
-   One run of the two loops in a given builder state:
+   A sequence of groups; one group = one run of the two loops in a given builder state:
      input : is_client mds peer host  bcap fcap tell  p_start p_hdr p_inflight  cl  n q1..qn  m r1..rm
-             (the QuicPacketBuilder fields at the first CID writer call; unsent host sequence numbers in _host_cids
-             order; _retire_connection_ids)
+             (the QuicPacketBuilder fields at the first CID writer call of a datagrams_to_send; unsent host sequence
+             numbers in _host_cids order; _retire_connection_ids)
      output: room, budget, then AS THE WRITER MODEL RUNS THE LOOPS: outcome code (0 returned | 1 QuicPacketBuilderStop |
              other exception codes of exec_builder), number of frames accepted, remaining_buffer_space and
              remaining_flight_space afterwards; then AS Cid.send PREDICTS WITH THAT BUDGET: NEW_CONNECTION_ID sequence
@@ -112,19 +112,28 @@ Definition count_frames (tr : list Builder.op) : Z :=
 Definition cid_state_of (news rets : list Z) : Cid.st :=
   Cid.mkSt true 0 [] [0] 0 rets [] [] [0] (map (fun q => Cid.mkH q false) news) 0 0 0 0 [] [] None None.
 
-(* EXTRACT: exec_cidsend *)
-Definition exec_cidsend (toks : list Z) : list Z :=
+Definition exec_cidsend_group (toks : list Z) : list Z * list Z :=
   match toks with
   | cl_ :: mds :: peer :: host :: bcap :: fcap :: tell :: pstart :: phdr :: infl :: cl :: r =>
       let '(news, r) := tk_list r in
-      let '(rets, _) := tk_list r in
+      let '(rets, rest) := tk_list r in
       let c := mkCfg (z2b cl_) mds peer host 0 None None None in
       let bs := Builder.mkSt tell bcap fcap 0 false false 0 0
                   (Some (mkPkt PT_ONE_RTT pstart phdr (z2b infl) false false 0)) true 0 [] [] false [] in
       let s := cid_state_of news rets in
       let '(o, bs', tr) := w_cid c bs cl s in
       let '((_, wn, wr), s') := send_built bs cl s in
-      [room bs; budget_of bs cl s; out_outcome o; count_frames tr; remaining_buffer_space bs'; remaining_flight_space bs']
-      ++ out_list wn ++ out_list wr ++ out_list (Cid.pend s') ++ out_list (Cid.unsent (Cid.hosts s'))
-  | _ => []
+      ([room bs; budget_of bs cl s; out_outcome o; count_frames tr; remaining_buffer_space bs'; remaining_flight_space bs']
+       ++ out_list wn ++ out_list wr ++ out_list (Cid.pend s') ++ out_list (Cid.unsent (Cid.hosts s')), rest)
+  | _ => ([], [])
   end.
+
+Fixpoint exec_cidsend_loop (fuel : nat) (toks : list Z) : list Z :=
+  match fuel with O => [] | S fuel =>
+  match toks with
+  | [] => []
+  | _ => let '(out, rest) := exec_cidsend_group toks in out ++ exec_cidsend_loop fuel rest
+  end end.
+
+(* EXTRACT: exec_cidsend *)
+Definition exec_cidsend (toks : list Z) : list Z := exec_cidsend_loop (length toks) toks.
